@@ -13,6 +13,14 @@ import (
 
 const SH_C0 = 0.28209479177387814
 
+// Maps a quaternion component in [-1, 1] to the byte range. A component of
+// exactly 1 lands on 256, which does not fit a byte (it used to wrap around
+// to 0 and read back as -1), so the value is clipped like the reference
+// converter does.
+func quantizeRotation(v float64) byte {
+	return byte(math.Max(0, math.Min(255, (v*128)+128)))
+}
+
 // https://github.com/antimatter15/splat/blob/main/convert.py#L10
 func Write(out io.Writer, mesh modeling.Mesh) error {
 
@@ -72,10 +80,10 @@ func Write(out io.Writer, mesh modeling.Mesh) error {
 		writer.Byte(byte(alpha * 255))
 
 		rot := rotationData.At(i)
-		writer.Byte(byte((rot.X() * 128) + 128))
-		writer.Byte(byte((rot.Y() * 128) + 128))
-		writer.Byte(byte((rot.Z() * 128) + 128))
-		writer.Byte(byte((rot.W() * 128) + 128))
+		writer.Byte(quantizeRotation(rot.X()))
+		writer.Byte(quantizeRotation(rot.Y()))
+		writer.Byte(quantizeRotation(rot.Z()))
+		writer.Byte(quantizeRotation(rot.W()))
 
 		if writer.Error() != nil {
 			return writer.Error()
